@@ -363,12 +363,22 @@ def static_flag_specs():
         for b in BOOL_FLAGS[i + 1:]:
             specs.append(({a: True, b: False}, "section"))
             specs.append(({a: False, b: True}, "api"))
+    # the same flag given in BOTH places with different values: the builder's setting is the one in force
+    # ("Setting this flag will override the same flag within a %grmtools section"); `flags` is what the builder is given
+    for k in BOOL_FLAGS:
+        for v in (True, False):
+            specs.append(({k: v}, "both"))
+    for i, k in enumerate(NUM_FLAGS):
+        specs.append(({k: [1048576, 3145728, 77][i]}, "both"))
     return specs
 
 
 def static_lexer(flags, via):
     """(lexer text, api flags): rules valid under every flag setting"""
     sec = flags if via == "section" else {}
+    if via == "both":
+        # the section says the opposite (booleans) / another number; the builder's value must win
+        sec = {k: ((not v) if isinstance(v, bool) else v + 4096) for k, v in flags.items()}
     txt = flag_section(sec) + "%%\n" + ("// comment\n" if sec.get('allow_wholeline_comments') else "") + 'a "A"\n[0-9]+ "INT"\n_+ ;\n'
     return txt, ({} if via == "section" else dict(flags))
 
